@@ -423,6 +423,15 @@ def main(rep, tier, only):
         rets = [r for r in F.walk(fn.get("body"), into_lambdas=False) if r.get("k") == "return"]
         t = T.snorm(u, fn, rets[0]["e"]) if len(rets) == 1 else None
         why = "operator== is not a single expression"
+        if t is None and len(rets) == 2:
+            # `if (sizes differ) return false; return equal(...);` is the same conjunction
+            ifs = [i for i in F.walk(fn.get("body"), into_lambdas=False) if i.get("k") == "if" and i.get("else") is None]
+            if len(ifs) == 1:
+                inner = [r for r in F.walk(ifs[0].get("then"), into_lambdas=False) if r.get("k") == "return"]
+                c = T.snorm(u, fn, ifs[0].get("cond"))
+                if len(inner) == 1 and T.show(T.snorm(u, fn, inner[0]["e"])) in ("0", "false") and isinstance(c, tuple) and c[0] == "b" and c[1] == "!=":
+                    last = [r for r in rets if r is not inner[0]][0]
+                    t = ("b", "&&", ("b", "==", c[2], c[3]), T.snorm(u, fn, last["e"]))
         if isinstance(t, tuple) and t[0] == "b" and t[1] == "&&":
             l, r = T.show(t[2]).replace(" ", ""), T.show(t[3]).replace(" ", "")
             size_ok = l in ("(%s.size()==%s.size())" % (a, b), "(%s.size()==%s.size())" % (b, a))
@@ -449,6 +458,15 @@ def main(rep, tier, only):
                 continue
             seen_w.add(key)
             arg = n["args"][0]
+            # a named intermediate (`auto const count(_function(...)); written(count)`) stands for its initialiser
+            for _ in range(3):
+                a0 = T.unwrap(u, arg)
+                if a0 is not None and a0.get("k") == "ref" and a0.get("dk") == "local" and a0.get("id") in T.const_local_defs(u, fn):
+                    inits = [v for v in F.walk(fn.get("body"), into_lambdas=True) if v.get("k") == "var" and v.get("id") == a0["id"] and v.get("init") is not None]
+                    if len(inits) == 1:
+                        arg = inits[0]["init"]
+                        continue
+                break
             arith = [m for m in F.walk(arg) if m.get("k") in ("binop", "compound_assign") and m.get("op") in ("+", "-", "*", "/", "%")]
             at = T.show(T.snorm(u, fn, arg))
             calls_fn = any(m.get("k") == "call" and (m.get("fn") is not None or (m.get("recv") is not None and (T.unwrap(u, m["recv"]) or {}).get("dk") == "param")) for m in F.walk(arg))
